@@ -735,6 +735,11 @@ func (c *Config) mutualVersion(vers uint16) (uint16, bool) {
 	if vers < minVersion {
 		return 0, false
 	}
+	if vers > VersionGMSSL && vers < VersionSSL30 {
+		// minVersion is GMSSL (0x0101): the values between it and SSL 3.0 are not protocol versions
+		// (no PRF, no record protection is defined for them)
+		return 0, false
+	}
 	if vers > maxVersion {
 		vers = maxVersion
 	}
